@@ -99,3 +99,17 @@ Proof.
   eexists. eexists. split; [vm_compute; reflexivity|]. split; [cbn; tauto|].
   cbn. intros H. repeat (destruct H as [H|H]; [discriminate|]). exact H.
 Qed.
+
+(* a file WITHOUT a header line (SpreadsheetInput(..., has_column_names=False)): no onset column, the first data row
+   is file row 1; a row with a cell issue (column label) and a row-level issue (no column label) *)
+Definition cfg_headerless : config :=
+  {| cf_header := false; cf_has_onset := false; cf_has_refs := false; cf_cats := []; cf_fixed := true;
+     cf_fix_none := true; cf_fix_value := true; cf_fix_mask := true |}.
+Definition t_headerless : list row :=
+  [{| r_onset := None;
+      r_body := {| b_cells := [{| c_col := 1; c_id := 8; c_skip := false |}; {| c_col := 2; c_id := 6; c_skip := false |}];
+                   b_badkeys := []; b_delaytext := false; b_delays := [] |} |}].
+Lemma headerless_example :
+  w_validate cfg_headerless t_headerless
+  = Ok [mk (SFull 2) (Some 1) None; mk (SBasic 3) (Some 1) (Some 1%N)].
+Proof. vm_compute. reflexivity. Qed.
